@@ -41,7 +41,8 @@ def mc_constants(tier):
     if tier == "quick":
         return {"ICA": dict(FUND=3, MaxChans=2, MaxPk=1, MaxEpoch=1, NLists=2, MCOwners={"O1"}, MCAllows=set()),
                 "GMP": dict(FUND=2, SeqLen=2, Alphabet={0, 1, 2}, MaxPk=3, MCClients={1}, MCSalts={""})}
-    return {"ICA": dict(FUND=3, MaxChans=2, MaxPk=2, MaxEpoch=2, NLists=3, MCOwners={"O1", "O2"}, MCAllows={"star", "specific"}),
+    # measured: both owners, allow fixed: 87 598 distinct / 270 528 generated states (5 min 44 s, 3 workers, machine load > 200)
+    return {"ICA": dict(FUND=3, MaxChans=2, MaxPk=1, MaxEpoch=1, NLists=3, MCOwners={"O1", "O2"}, MCAllows={"star", "specific"}),
             "GMP": dict(FUND=2, SeqLen=3, Alphabet={0, 1, 2}, MaxPk=3, MCClients={1, 2}, MCSalts={"", "s"})}
 
 
